@@ -149,9 +149,19 @@ pub fn memory_check(env: &Env, ctx: &Ctx, args: &[String], n: usize, seed: u64, 
         let gp = gen::GenParams { flavor: gen::Flavor::Git, sections: vec![], max_hunks: 1, pivot: 3, max_run: 8, with_commit_preamble: false, multibyte: false, no_newline_marker: false, similar_pairs: true, no_index_lines: false, no_prefix: false, line_number_class: 0 };
         let mut lines: Vec<GLine> = Vec::new();
         let mut tok = 0usize;
+        // a fixed repertoire of 100 hunks, repeated: every cache keyed on content (lazily compiled
+        // regexes of the highlighter, memoised widths ...) is warm well before the smaller size ends,
+        // so what still grows between the two sizes grows with the input
+        let mut templates: Vec<Vec<GLine>> = Vec::new();
         for h in 0..reps {
             // one file (fixed name, so the same language is used at both sizes), many hunks
-            let sec = gen::generate_section(&mut rng, &gp, gen::SectionKind::Modified, 0, tok);
+            let sec = if h < 100 {
+                let s = gen::generate_section(&mut rng, &gp, gen::SectionKind::Modified, 0, tok);
+                templates.push(s.clone());
+                s
+            } else {
+                templates[h % 100].clone()
+            };
             tok += sec.iter().filter(|l| l.token.is_some()).count();
             for mut l in sec {
                 if l.kind == gen::LineKind::Meta {
